@@ -19,7 +19,11 @@ META = dict(
                "exception class and labels); a Python oracle re-derives the expected stored result from the scenario. In a fifth "
                "of the cases the broker gets its result backend (also middlewares, formatter, tasks) only AFTER the Receiver was "
                "constructed (assignment, with_* builders, WORKER_STARTUP handler) and the backend may be replaced mid-run: the "
-               "result must reach the backend that is the broker's when set_result is called.",
+               "result must reach the backend that is the broker's when set_result is called. In an eighth of the cases the wall "
+               "clock the receiver measures executions with (time.time()) is a scripted clock that is not the loop's monotonic "
+               "clock: it is stepped backwards / forwards (milliseconds .. years), set to an absolute value or stands still "
+               "while executions are under way (negative, zero and huge measured durations) - the stored result and the "
+               "completion of the message must not depend on it.",
     level_note="Known finding sync_generator_exit (D10): a SYNC function raising GeneratorExit - the theorems exclude exactly "
                "that region (wf_recv: sync_genexit c = false) and C07_one_save_refuted_sync_genexit exhibits it. The statement "
                "claims timeout enforcement for async functions only; for sync functions wait_for gives up but the thread "
@@ -31,7 +35,7 @@ META = dict(
          "followed (in the same run) by another message; distinct by canonical case",
     trusted_base=["model: coq/theories/Pipeline.v (hand-written transcription of Receiver.callback / run_task)",
                   "recorders and shims of harness/drivers/pipeline_driver.py (recording result backend, virtual-time loop "
-                  "with virtual-duration sync bodies)",
+                  "with virtual-duration sync bodies, scripted wall clock standing in for time.time())",
                   "asyncio.wait_for / thread-pool behaviour as modelled by body_run (exercised, not verified)"],
     assumptions=["post_execute / post_save hooks may rewrite the shared TaskiqResult object: the theorems say what is saved "
                  "is the object as the hooks left it (res2); with result-preserving hooks it is the raw outcome",
